@@ -245,6 +245,7 @@ func HarnessC45Crash() {
 		got, interrupted = zzvRunNative(c, earlier, gaps, cutOp, cutLen)
 	}
 	newVer := int64(earlier + 1)
+	validOnDisk := zzvValid
 	verifrt.Assert("C45.result-present", got != nil)
 	if got == nil {
 		return
@@ -263,6 +264,9 @@ func HarnessC45Crash() {
 			verifrt.Assert("C45.no-fallback-while-earlier-version-cached", !fellBack)
 		}
 	}
+	if validOnDisk {
+		verifrt.Assert("C45.no-fallback-while-valid-version-on-disk", !fellBack)
+	}
 	if !fellBack {
 		verifrt.Assert("C45.result-is-new-or-newest-earlier", got.AutoConfVersion == newVer || (earlier >= 1 && got.AutoConfVersion == int64(earlier)))
 	}
@@ -270,6 +274,35 @@ func HarnessC45Crash() {
 		verifrt.Assert("C45.completed-update-is-served", !fellBack && got.AutoConfVersion == newVer)
 	}
 	verifrt.Reach("end")
+}
+
+
+// zzvValid is set by the run functions just before the cached read: the state-based clause of the property,
+// "never the built-in fallback while a valid cached version exists" — a valid version exists when some file
+// with a cache file name holds one of the complete documents.
+var zzvValid bool
+
+func zzvValidOnDisk(c *Client, newVer int64) bool {
+	valid := false
+	if dir, err := c.getCacheDir(); err == nil {
+		ents, _ := os.ReadDir(dir)
+		for _, e := range ents {
+			n := e.Name()
+			if !strings.HasPrefix(n, "autoconf-") || !strings.HasSuffix(n, ".json") {
+				continue
+			}
+			data, err := os.ReadFile(filepath.Join(dir, n))
+			if err != nil {
+				continue
+			}
+			for v := int64(1); v <= newVer; v++ {
+				if string(data) == zzvDoc(v) {
+					valid = true
+				}
+			}
+		}
+	}
+	return valid
 }
 
 func zzvRunModel(c *Client, earlier int, gaps []int, cutOp, cutLen int) (*Config, bool) {
@@ -309,6 +342,7 @@ func zzvRunModel(c *Client, earlier int, gaps []int, cutOp, cutLen int) (*Config
 	zzvD.cutW = -1
 	zzvD.dead = false
 	c.cacheMu = sync.RWMutex{}
+	zzvValid = zzvValidOnDisk(c, int64(earlier+1))
 	return c.GetCached(), crashed
 }
 
@@ -329,7 +363,7 @@ func zzvRunNative(c *Client, earlier int, gaps []int, cutOp, cutLen int) (*Confi
 // Natively: the earlier updates run for real and their files are renamed to the timestamps the scenario
 // asks for (relative to "now"); the interrupted update runs for real, under RLIMIT_FSIZE = t when the cut is in
 // the first data write (the configuration file), which makes the kernel stop that write after t bytes. Cuts in
-// later data writes only concern the metadata files, which GetCached never reads: the update then completes.
+// later data writes (metadata files) are placed by blocking the final names of those files, see below.
 func zzvRunNativeOnce(c *Client, earlier int, gaps []int, cutOp, cutLen int) (*Config, bool, error) {
 	tmp, err := os.MkdirTemp("", "zzvc45-")
 	if err != nil {
@@ -395,9 +429,46 @@ func zzvRunNativeOnce(c *Client, earlier int, gaps []int, cutOp, cutLen int) (*C
 		}
 	}
 	body := []byte(zzvDoc(int64(earlier + 1)))
+	// A cut in a later data write (the metadata files, in the order saveToCache writes them: .etag, then
+	// .last-refresh; .last-modified is not written because the harness passes no Last-Modified value): the
+	// process stops before that write reaches its final name, and no later write happens. Natively this is
+	// placed by putting a directory at the final name of every metadata file from the cut on (rename onto a
+	// directory fails), with the earlier update's file of that name moved aside and put back afterwards. A cut
+	// after t > 0 bytes of a metadata write leaves the same visible state as t = 0 as long as writes go to a
+	// temporary name first; if they do not, the replay differs from the model and the run is inconclusive.
+	cutInMeta := cutOp >= 1 && cutOp < verifrt.Param("WRITES", 3)
+	var blocked []string
+	if cutInMeta {
+		meta := []string{etagFile, lastRefreshFile}
+		if cutOp-1 < len(meta) {
+			blocked = meta[cutOp-1:]
+		}
+		for k, n := range blocked {
+			full := filepath.Join(dir, n)
+			if _, err := os.Lstat(full); err == nil {
+				if err := os.Rename(full, filepath.Join(tmp, "stash-"+strconv.Itoa(k))); err != nil {
+					panic(err)
+				}
+			}
+			if err := os.Mkdir(full, 0o755); err != nil {
+				panic(err)
+			}
+		}
+	}
 	var saveErr error
 	if c.isNewPayload(dir, body) {
 		saveErr = c.saveToCache(dir, body, "etag"+strconv.Itoa(earlier+1), "", time.Unix(1_700_000_000, 0))
+	}
+	for k, n := range blocked {
+		full := filepath.Join(dir, n)
+		if err := os.Remove(full); err != nil {
+			panic(err)
+		}
+		if _, err := os.Lstat(filepath.Join(tmp, "stash-"+strconv.Itoa(k))); err == nil {
+			if err := os.Rename(filepath.Join(tmp, "stash-"+strconv.Itoa(k)), full); err != nil {
+				panic(err)
+			}
+		}
 	}
 	if cutInConfig {
 		if err := syscall.Setrlimit(syscall.RLIMIT_FSIZE, &old); err != nil {
@@ -410,11 +481,10 @@ func zzvRunNativeOnce(c *Client, earlier int, gaps []int, cutOp, cutLen int) (*C
 	if cutInConfig && cutLen < len(body) && saveErr == nil {
 		panic("zzv: the size limit did not interrupt the write")
 	}
-	if saveErr == nil && !cutInConfig {
+	if saveErr == nil && !cutInConfig && !cutInMeta {
 		_ = c.cleanupOldVersions(dir)
 	}
-	// natively a cut in a later (metadata) write cannot be placed: the update completes, which the oracle
-	// treats like the interrupted case (new or newest earlier)
+	zzvValid = zzvValidOnDisk(c, int64(earlier+1))
 	return c.GetCached(), saveErr != nil || cutOp < verifrt.Param("WRITES", 3), nil
 }
 
